@@ -261,7 +261,39 @@ pub fn run() {
                         // final state as a sequential observer sees it
                         let mut ids: Vec<u64> = built.engine.cold_tier().scan(|_| true);
                         ids.sort_unstable();
-                        ids.iter().map(|id| format!("{}={}", id, apply(&built.engine, &format!("dm:{}", id)))).collect::<Vec<_>>().join(",")
+                        let live = ids.iter().map(|id| format!("{}={}", id, apply(&built.engine, &format!("dm:{}", id)))).collect::<Vec<_>>().join(",");
+                        // C09: once every call has returned, a restart from the data directory must yield exactly this
+                        match &built._dir {
+                            Some(d) if p.persist => {
+                                let rec = kyrodb_engine::HnswBackend::recover(
+                                    DIM,
+                                    DistanceMetric::Euclidean,
+                                    d.path(),
+                                    10_000,
+                                    FsyncPolicy::Never,
+                                    0,
+                                    0,
+                                    kyrodb_engine::metrics::MetricsCollector::new(),
+                                );
+                                let r = match rec {
+                                    Ok(b) => {
+                                        let mut ids: Vec<u64> = b.scan(|_| true);
+                                        ids.sort_unstable();
+                                        ids.iter()
+                                            .map(|id| {
+                                                let v = b.fetch_document(*id).unwrap_or_default();
+                                                let m = b.fetch_metadata(*id).unwrap_or_default();
+                                                format!("{}={}/{}", id, show_opt_vec(&Some(v)), show_meta_v(&m))
+                                            })
+                                            .collect::<Vec<_>>()
+                                            .join(",")
+                                    }
+                                    Err(e) => format!("ERR:{}", format!("{:#}", e).replace([' ', ',', '#', '~'], "_").chars().take(80).collect::<String>()),
+                                };
+                                format!("{};rec;{}", live, r)
+                            }
+                            _ => live,
+                        }
                     } else {
                         "deadlock".to_string()
                     };
